@@ -15,17 +15,21 @@ LEVEL = "exploration"
 
 def run(ctx):
     exported = core.run_cases(ctx, "harness.export", "export_locales", [{}], nproc=1)[0]
+    rng = ctx.rng
     langs = exported["language_order"]
     findings, _ = core.load_findings("C06")
     known = {(f["signature"]["locale"], f["signature"]["phrase"]): f["id"] for f in findings}
     rep = core.replay_cases(ctx)
     if rep:
         langs = [rep[0]["lang"]]
+    # "with any number substituted": besides the small counts, numbers that look like something else (a year, a day of
+    # the month, an hour, a leading zero) - a rewrite rule keyed on such a shape hits only them
+    WIDE = ["0", "3", "7", "10", "24", "31", "45", "60", "100", "120", "365", "1000", "1900", "1999", "2000", "2015", "2021", "2099", "07", "12345"]
     if ctx.quick():
-        counts = ["1", "2", "11"]
+        counts = ["1", "2", "11"] + rng.sample(WIDE, 3) + [rng.choice(["1999", "2015", "2021", "1900"])]
         bases = [[2021, 3, 31, 10, 30, 17, 0]]
     else:
-        counts = ["0", "1", "2", "3", "11", "45", "120", "1.5", "2,5"]
+        counts = ["1", "2", "11", "1.5", "2,5"] + WIDE
         bases = [[2021, 6, 15, 12, 0, 0, 0], [2021, 3, 31, 10, 30, 17, 0], [2020, 2, 29, 23, 59, 59, 0]]
     reqs = []
     for L in langs:
